@@ -22,7 +22,10 @@ Inductive cty :=
 | CTuple (ts : list cty)
 | CTupleVar (t : cty)
 | CSet (t : cty)
-| CData (fields : list (str * cty * val)).   (* a dataclass used as a type hint VALUE: field name, type, default *)
+| CData (fields : list (str * cty * val))    (* a dataclass used as a type hint VALUE: field name, type, default *)
+| CSub (classes : list (str * cty)).         (* a subclass-typed argument: admissible class paths, each with the CData of
+                                                its resolvable constructor parameters; value = {class_path, init_args?,
+                                                dict_kwargs?} *)
 
 (* adapt_typehints runs deserialising, or serialising with the dump options of the enclosing dump (dump_kwargs
    context: skip_none reaches the nested parser.dump of a dataclass-typed value) *)
@@ -33,9 +36,13 @@ Inductive cty :=
    FNo     = parse_object(..., defaults=False): missing fields stay missing (dataclass below a Dict / Tuple / Set / Union
              item, which add_sub_defaults skips) *)
 Inductive fill := FNo | FParser | FAll.
-Inductive mode := Des (f : fill) | Ser (skip_none : bool).
-Definition is_ser (m : mode) : bool := match m with Des _ => false | Ser _ => true end.
-Definition sub_mode (m : mode) : mode := match m with Des FParser => Des FNo | _ => m end.   (* below a container / union *)
+(* prev = prev_val: the value the key holds while a configuration source is applied (the declared default); it
+   reaches a subclass spec directly or through a Union, not through containers *)
+Inductive mode := Des (f : fill) (prev : val) | Ser (skip_none : bool).
+Definition is_ser (m : mode) : bool := match m with Des _ _ => false | Ser _ => true end.
+Definition union_mode (m : mode) : mode := match m with Des FParser p => Des FNo p | _ => m end.   (* a Union member *)
+Definition sub_mode (m : mode) : mode :=                                                          (* below a container *)
+  match m with Des FParser _ => Des FNo VNone | Des f _ => Des f VNone | _ => m end.
 
 (* ---- equalities ------------------------------------------------------------------------------------------------ *)
 Definition num_of (v : val) : option fl :=
@@ -157,19 +164,25 @@ Definition is_str (v : val) : bool := match v with VStr _ => true | _ => false e
 Definition is_cnone (t : cty) : bool := match t with CNone => true | _ => false end.
 Definition is_cstr (t : cty) : bool := match t with CStr => true | _ => false end.
 Definition is_seqmap (t : cty) : bool := match t with CList _ | CDict _ _ => true | _ => false end.
-Definition is_cdata (t : cty) : bool := match t with CData _ => true | _ => false end.
 (* the value of such a type is a Namespace at its top: add_sub_defaults re-applies it *)
-Definition is_dc_direct (t : cty) : bool := match t with CData _ => true | CUnion ts => existsb is_cdata ts | _ => false end.
+Definition is_cdata (t : cty) : bool := match t with CData _ => true | _ => false end.
+Definition is_nslike (t : cty) : bool := match t with CData _ | CSub _ => true | _ => false end.
+Definition is_dc_direct (t : cty) : bool := match t with CData _ | CSub _ => true | CUnion ts => existsb is_nslike ts | _ => false end.
+Definition k_class_path : str := [99;108;97;115;115;95;112;97;116;104]%N.
+Definition k_init_args : str := [105;110;105;116;95;97;114;103;115]%N.
+Definition k_dict_kwargs : str := [100;105;99;116;95;107;119;97;114;103;115]%N.
+Definition cdata_has (t : cty) (k : val) : bool :=
+  match t with CData fs => existsb (fun f => py_eq k (VStr (fst (fst f)))) fs | _ => false end.
 Definition field_mode (f : fill) (t1 : cty) : mode :=
   match f with
-  | FAll => Des FAll
-  | FParser => if is_dc_direct t1 then Des FAll else Des FNo    (* the nested parser's own add_sub_defaults *)
-  | FNo => Des FNo
+  | FAll => Des FAll VNone
+  | FParser => if is_dc_direct t1 then Des FAll VNone else Des FNo VNone    (* the nested parser's own add_sub_defaults *)
+  | FNo => Des FNo VNone
   end.
 Definition item_mode (m : mode) (t1 : cty) : mode :=            (* List[T]: list_item=True reaches a dataclass T only *)
   match m with
-  | Des FAll => m
-  | Des _ => if is_cdata t1 then Des FParser else Des FNo
+  | Des FAll _ => Des FAll VNone
+  | Des _ _ => if is_cdata t1 then Des FParser VNone else Des FNo VNone
   | _ => m
   end.
 
@@ -326,7 +339,7 @@ Fixpoint adapt (m : mode) (orig : option str) (t : cty) (v : val) {struct t} : o
   | CUnion ts =>
       adapt_union orig v
         ((fix go (ts : list cty) : list (cty * option val) :=
-            match ts with [] => [] | t1 :: ts' => (t1, adapt (sub_mode m) orig t1 v) :: go ts' end) ts)
+            match ts with [] => [] | t1 :: ts' => (t1, adapt (union_mode m) orig t1 v) :: go ts' end) ts)
   | CTuple ts =>
       match seq_items v with
       | None => None
@@ -423,7 +436,7 @@ Fixpoint adapt (m : mode) (orig : option str) (t : cty) (v : val) {struct t} : o
               | Some r => Some (VDict r)
               | None => None
               end
-          | Des f =>
+          | Des f _ =>
               if forallb (fun kv => existsb (fun f => py_eq (fst kv) (VStr (fst (fst f)))) fs) d then
                 match (fix go (fs : list (str * cty * val)) : option (list (val * val)) :=
                          match fs with
@@ -450,10 +463,60 @@ Fixpoint adapt (m : mode) (orig : option str) (t : cty) (v : val) {struct t} : o
           end
       | _ => None
       end
+  | CSub cs =>
+      (* adapt_class_type on a subclass spec. Serialising: init_args, when there are any, go through the class parser's
+         dump (dump options forwarded); class_path and dict_kwargs stay. Deserialising (the spec is re-applied by
+         add_sub_defaults: every parameter completed): given init_args over those of prev_val that the class also has,
+         over the class's own defaults *)
+      match v with
+      | VDict d =>
+          match dict_get (VStr k_class_path) d with
+          | Some (VStr cp) =>
+              let ia := dict_get (VStr k_init_args) d in
+              let head := (VStr k_class_path, VStr cp) in
+              let tail := match dict_get (VStr k_dict_kwargs) d with Some x => [(VStr k_dict_kwargs, x)] | None => [] end in
+              (fix find (cs : list (str * cty)) : option val :=
+                 match cs with
+                 | [] => None
+                 | (p, t1) :: cs' =>
+                     if str_eqb p cp then
+                       match m with
+                       | Ser _ =>
+                           match ia with
+                           | Some (VDict (kv :: l)) =>
+                               match adapt m None t1 (VDict (kv :: l)) with
+                               | Some r => Some (VDict (head :: (VStr k_init_args, r) :: tail))
+                               | None => None
+                               end
+                           | Some x => Some (VDict (head :: (VStr k_init_args, x) :: tail))
+                           | None => Some (VDict (head :: tail))
+                           end
+                       | Des _ prev =>
+                           let pia := match prev with
+                                      | VDict pd => match dict_get (VStr k_init_args) pd with Some (VDict x) => Some x | _ => None end
+                                      | _ => None
+                                      end in
+                           let given := match ia with Some (VDict l) => l | _ => [] end in
+                           let inherited := filter (fun kv => negb (existsb (fun g => py_eq (fst g) (fst kv)) given)
+                                                              && cdata_has t1 (fst kv))
+                                                   (match pia with Some x => x | None => [] end) in
+                           match adapt (Des FAll VNone) orig t1 (VDict (given ++ inherited)) with
+                           | Some (VDict r) =>
+                               let has_ia := match r, pia with [], None => false | _, _ => true end in
+                               Some (VDict (head :: (if has_ia then [(VStr k_init_args, VDict r)] else []) ++ tail))
+                           | _ => None
+                           end
+                       end
+                     else find cs'
+                 end) cs
+          | _ => None
+          end
+      | _ => None
+      end
   end.
 
 Definition check_type (t : cty) (dflt : val) (v0 : val) : option val :=
-  check_with (fun o y => adapt (Des (if is_dc_direct t then FAll else FNo)) o t y) (valid_string t) dflt v0.
+  check_with (fun o y => adapt (Des (if is_dc_direct t then FAll else FNo) dflt) o t y) (valid_string t) dflt v0.
 
 (* a value found under a key of a configuration source (file, string, object): None is kept as it is *)
 Definition check_entry (t : cty) (dflt : val) (v : val) : option val :=
@@ -483,16 +546,86 @@ Definition cleanup (strict skip_none : bool) (t : cty) (dflt : val) (v : val) : 
          end
   end.
 
-(* _dump_delete_default_entries below one declared key (since /repo d576475 a dict VALUE is kept or dropped whole):
-   None = the entry is deleted *)
-Definition trim (j dj : val) : option val := if py_eq j dj then None else Some j.
+(* _dump_delete_default_entries below one declared key (since /repo d576475 a dict VALUE is kept or dropped whole).
+   A subclass spec is compared by its init_args: with those of the default when the class is the default's, else with the
+   class's own defaults; equal -> the key is deleted (same class) or only its init_args (other class, /repo fix of
+   skip-default-drops-changed-class); different -> init_args are pruned parameter by parameter. A default that is None
+   makes `default.get("class_path")` raise. *)
+Inductive tres := TErr | TDel | TKeep (j : val).
+
+Fixpoint sub_classes (t : cty) : list (str * cty) :=
+  match t with
+  | CSub cs => cs
+  | CUnion ts => (fix go (ts : list cty) : list (str * cty) := match ts with [] => [] | t1 :: ts' => sub_classes t1 ++ go ts' end) ts
+  | _ => []
+  end.
+
+Fixpoint class_fields (cs : list (str * cty)) (cp : str) : option (list (str * cty * val)) :=
+  match cs with
+  | [] => None
+  | (p, t1) :: cs' => if str_eqb p cp then match t1 with CData fs => Some fs | _ => None end else class_fields cs' cp
+  end.
+
+Definition spec_class (j : val) : option str :=
+  match j with
+  | VDict d => match dict_get (VStr k_class_path) d with Some (VStr cp) => Some cp | _ => None end
+  | _ => None
+  end.
+
+Definition opt_py_eq (a b : option val) : bool :=
+  match a, b with Some x, Some y => py_eq x y | None, None => true | _, _ => false end.
+
+Definition dict_del (k : val) (d : list (val * val)) : list (val * val) := filter (fun kv => negb (py_eq (fst kv) k)) d.
+
+(* false = the tree as it is (findings skip-default-none-default-crash, skip-default-drops-dict-kwargs);
+   true = with fixes/C01-skip-default-subclass-spec.patch: a default that is not a spec counts as "another class", and a
+   spec is deleted only if its dict_kwargs are the default's too (otherwise only its init_args go) *)
+Definition fx_subclass_trim : bool := false.
+
+Definition trim (t : cty) (j dj : val) : tres :=
+  match spec_class j, j with
+  | Some cp, VDict jd =>
+      match (match dj with VDict dd => Some dd | _ => if fx_subclass_trim then Some [] else None end) with
+      | Some dd =>
+          let same := match dict_get (VStr k_class_path) dd with Some (VStr cpd) => str_eqb cp cpd | _ => false end in
+          let default_ia :=
+            if same then dict_get (VStr k_init_args) dd
+            else match class_fields (sub_classes t) cp with
+                 | Some fs => Some (VDict (map (fun f => (VStr (fst (fst f)), snd f)) fs))
+                 | None => None
+                 end in
+          let val_ia := dict_get (VStr k_init_args) jd in
+          if opt_py_eq val_ia default_ia then
+            (if same && negb (fx_subclass_trim
+                              && negb (opt_py_eq (dict_get (VStr k_dict_kwargs) jd) (dict_get (VStr k_dict_kwargs) dd)))
+             then TDel else TKeep (VDict (dict_del (VStr k_init_args) jd)))
+          else match val_ia, default_ia with
+               | Some (VDict a), Some (VDict b) =>
+                   let a' := filter (fun kv => match dict_get (fst kv) b with
+                                               | Some y => negb (py_eq (snd kv) y)
+                                               | None => true
+                                               end) a in
+                   TKeep (VDict (match a' with
+                                 | [] => dict_del (VStr k_init_args) jd
+                                 | _ => map (fun kv => if py_eq (fst kv) (VStr k_init_args) then (fst kv, VDict a') else kv) jd
+                                 end))
+               | _, _ => TKeep j
+               end
+      | None => TErr
+      end
+  | _, _ => if py_eq j dj then TDel else TKeep j
+  end.
 
 Definition dump_entry (vr : variant) (lf : leaf) (w : val) : entry :=
   match cleanup true (vr_skip_none vr) (lf_ty lf) (lf_def lf) w with
   | EPresent j =>
       if vr_skip_default vr then
         match cleanup false (vr_skip_none vr) (lf_ty lf) (lf_def lf) (lf_def lf) with
-        | EPresent dj => match trim j dj with Some j' => EPresent j' | None => EAbsent end
+        | EPresent dj => match trim (lf_ty lf) j dj with
+                         | TErr => EErr
+                         | TDel => EAbsent
+                         | TKeep j' => EPresent (if val_eqb j' j then j else j')
+                         end
         | _ => EPresent j
         end
       else EPresent j
